@@ -689,3 +689,40 @@ package readline
 //@   requires fullok(rl) && !autosuggest(rl)
 //@   ensures [keeps-invariant] fullok(rl)
 //@   loop 1 invariant fullok(rl) && !autosuggest(rl)
+
+// C01: NewShell establishes the standing invariant that every command contract of the sweep requires.
+//@ func NewShell
+//@   props C01
+//@   requires all(k, 0, len(opts), opts[k] != nil) && history.allok()
+//@   ensures [establishes-invariant] result != nil && fullok(result)
+
+// ---------------------------------------------------------------------------------------
+// Final fields: the component pointers of the shell (and of its parts) are assigned when the object is built
+// and never again anywhere in the module (checked over the SSA of every module function, see DESIGN.md §2.9),
+// so they survive every havoc.  For the exported ones this also assumes that the application does not
+// replace a component of a shell it got from NewShell (A-COMPONENTS).  Shell.line / cursor / selection are NOT
+// final (incremental search swaps them with the minibuffer).
+//@ final readline.Shell.Iterations props C01 C06 C16 C17
+//@ final readline.Shell.Buffers props C01 C06 C16 C17
+//@ final readline.Shell.Keys props C01 C06 C16 C17
+//@ final readline.Shell.Keymap props C01 C06 C16 C17
+//@ final readline.Shell.History props C01 C06 C16 C17
+//@ final readline.Shell.Macros props C01 C06 C16 C17
+//@ final readline.Shell.Config props C01 C06 C16 C17
+//@ final readline.Shell.Prompt props C01 C06 C16 C17
+//@ final readline.Shell.Hint props C01 C06 C16 C17
+//@ final readline.Shell.completer props C01 C06 C16 C17
+//@ final readline.Shell.Display props C01 C06 C16 C17
+//@ final core.Cursor.line props C01 C06 C16 C17
+//@ final core.Selection.line props C01 C06 C16 C17
+//@ final core.Selection.cursor props C01 C06 C16 C17
+//@ final history.Sources.line props C01 C07 C09
+//@ final history.Sources.cursor props C01 C07 C09
+//@ final history.Sources.config props C01 C07 C09
+//@ final history.Sources.hint props C01 C07 C09
+//@ final keymap.Engine.config props C01 C03
+//@ final keymap.Engine.keys props C01 C03
+//@ final keymap.Engine.iterations props C01 C03
+//@ final macro.Engine.keys props C01 C18
+//@ final macro.Engine.hint props C01 C18
+//@ final inputrc.Config.Vars props C01 C12
